@@ -40,12 +40,8 @@ pub fn property() -> Property {
             // (2)
             SubCheck { name: "add_output", kind: Kind::Tape { quick: 120_000, thorough: 1_500_000, max_len: 192 }, run: add_output_case },
             SubCheck { name: "mint_output", kind: Kind::Tape { quick: 40_000, thorough: 600_000, max_len: 160 }, run: mint_output_case },
-            // (3) ---------------------------------------------------------------------------------
-            // PLACE FOR SUB-CHECK (3): every output and the collateral return of every transaction
-            // built by the scenario engine meets the bound and the value-size limit, and the signed
-            // transaction is no larger than max_tx_size. Added by the main session; `check_emitted_output`
-            // below is the shared oracle for one emitted output.
-            // -------------------------------------------------------------------------------------
+            // (3) built transactions of the scenario engine (props/builder.rs::c07_built_case)
+            SubCheck { name: "built_tx", kind: Kind::Tape { quick: 40_000, thorough: 2_000_000, max_len: 500 }, run: super::builder::c07_built_case },
             // (4)
             SubCheck { name: "output_builder", kind: Kind::Tape { quick: 250_000, thorough: 4_000_000, max_len: 192 }, run: output_builder_case },
             SubCheck {
@@ -1576,8 +1572,13 @@ fn check_output_builder(ctx: &mut Ctx, p: &str, spec: &Spec, cpb: u64) -> Result
     let need = bound(cpb, em.size);
     if (em.coin as u128) < need {
         // the helper sizes a copy of the output that carries a fixed 57-byte base address
-        let sig = if spec.addr_len > PLACEHOLDER_ADDR_LEN {
+        // ... so an address longer than that leaves the coin short by cpb per extra address byte (plus at most
+        // the 4 bytes a coin crossing a width boundary adds); anything larger is a different defect
+        let short = need - em.coin as u128;
+        let sig = if spec.addr_len > PLACEHOLDER_ADDR_LEN && short <= cpb as u128 * (spec.addr_len - PLACEHOLDER_ADDR_LEN + 4) as u128 {
             format!("output_builder/min-coin-below-bound/{}", spec.kind)
+        } else if spec.addr_len > PLACEHOLDER_ADDR_LEN {
+            format!("output_builder/min-coin-below-bound-beyond-address-gap/{}", spec.kind)
         } else {
             format!("output_builder/min-coin-below-bound-address-within-placeholder/{}", spec.kind)
         };
